@@ -36,6 +36,9 @@ def run(ctx: CheckContext):
         "numpy semantics: table.col[...] is a view of the buffer that insert_temperature_interval replaces",
     ]
     g = "OpenPinch/analysis/gcc_manipulation.py"
+    run_control(ctx, "C07/sub-zero-closing-temperatures-filtered", analyse, p.root, "OpenPinch/classes/problem_table.py",
+                "        T_vals = np.atleast_1d(np.asarray(T_ls, dtype=float))\n",
+                "        T_vals = np.atleast_1d(np.asarray(T_ls, dtype=float))\n        T_vals = T_vals[np.isfinite(T_vals) & (T_vals > 0.0)]\n", "ZERO-CMP")
     run_control(ctx, "C07/last-row-between-pinches-kept", analyse, p.root, "OpenPinch/analysis/gcc_manipulation.py",
                 "for j in range(hot_pinch_loc + 1, cold_pinch_loc):", "for j in range(hot_pinch_loc + 1, cold_pinch_loc - 1):", "BETWEEN")
     run_control(ctx, "C07/pocket-free-column-as-cache", analyse, p.root, g, "    get_GCC_without_pockets(pt)\n",
